@@ -5,7 +5,8 @@
 //!                             flags bit1 keep_trailing_newline, bit2 trim_blocks, bit3 lstrip_blocks;
 //!                             bits 4-5 API: 0 loader + get_template, 1 add_template_owned, 2 template_from_str
 //!                             (= render_str), 3 template_from_named_str; bit6: t0 is an *expression*
-//!                             (compile_expression + eval); flags >> 8 = fuel + 1 (0 = unlimited).
+//!                             (compile_expression + eval); bits 7-8 undefined behaviour (0 lenient, 1 chainable, 2 semi-strict, 3 strict);
+//!                             flags >> 12 = fuel + 1 (0 = unlimited).
 //! 1 flags SRC                 tokenizer only (machinery::tokenize): every token span + the error
 //! 2 nops (op a b c d e f)* nq q*   Instructions line/span tables driven directly
 //!                             op 0 = add, 1 = add_with_line(a), 2 = add_with_span(a..f)
@@ -154,9 +155,15 @@ fn pipeline(flags: i64, sources: Arc<Vec<String>>, debug: bool, out: &mut Vec<St
     env.set_trim_blocks(flags & 4 != 0);
     env.set_lstrip_blocks(flags & 8 != 0);
     let api = (flags >> 4) & 3;
-    if flags >> 8 > 0 {
-        // out of fuel after (flags >> 8) - 1 units: an error at an arbitrary instruction
-        env.set_fuel(Some((flags >> 8) as u64 - 1));
+    env.set_undefined_behavior(match (flags >> 7) & 3 {
+        1 => minijinja::UndefinedBehavior::Chainable,
+        2 => minijinja::UndefinedBehavior::SemiStrict,
+        3 => minijinja::UndefinedBehavior::Strict,
+        _ => minijinja::UndefinedBehavior::Lenient,
+    });
+    if flags >> 12 > 0 {
+        // out of fuel after (flags >> 12) - 1 units: an error at an arbitrary instruction
+        env.set_fuel(Some((flags >> 12) as u64 - 1));
     }
     let srcs = sources.clone();
     env.set_loader(move |name| {
@@ -165,7 +172,10 @@ fn pipeline(flags: i64, sources: Arc<Vec<String>>, debug: bool, out: &mut Vec<St
     });
     let mut m = BTreeMap::new();
     m.insert("a", 1);
-    let ctx = context! { seq => vec![1, 2, 3], zero => 0, one => 1, s => "str", m => Value::from(m) };
+    let mut cfg = BTreeMap::new();
+    cfg.insert("mode", Value::from("bogus"));
+    cfg.insert("on", Value::from(true));
+    let ctx = context! { seq => vec![1, 2, 3], zero => 0, one => 1, s => "str", m => Value::from(m), cfg => Value::from(cfg) };
     let res = catch_unwind(AssertUnwindSafe(|| {
         if flags & 64 != 0 {
             // the expression API: t0 is the expression
@@ -296,7 +306,7 @@ fn main() {
             3 => {
                 // compile one template and report the location recorded for every instruction
                 // (root instructions, then every block): nlines, then per instruction
-                // ltag line stag sl so eo ok  (ok: the span is a valid slice whose start lies on line sl)
+                // marker_line ltag line stag sl so eo ok  (ok: the span is a valid slice whose start lies on line sl)
                 let flags = c.i64();
                 let src = read_src(c);
                 let mut env = Environment::new();
@@ -315,8 +325,32 @@ fn main() {
                         let mut n = 0;
                         for ins in all {
                             let mut i = 0u32;
-                            while ins.get(i).is_some() {
+                            while let Some(instr) = ins.get(i) {
                                 n += 1;
+                                // an identifier "uq..." carried by the instruction that occurs exactly once in the
+                                // source tells which statement produced it: the line it stands on (0 = none)
+                                let mut marker_line = 0usize;
+                                // (Enclose lists the free variables of a macro / call body after the body: not produced where the name stands)
+                                if !matches!(instr, Instruction::EmitRaw(_) | Instruction::Enclose(_)) {
+                                    let js = serde_json::to_string(instr).unwrap_or_default();
+                                    let mut rest = js.as_str();
+                                    while let Some(p) = rest.find("uq") {
+                                        let tail = &rest[p..];
+                                        let len = tail.chars().take_while(|c| c.is_ascii_alphanumeric()).count();
+                                        let id = &tail[..len];
+                                        if src.matches(id).count() == 1 {
+                                            let at = src.find(id).unwrap();
+                                            // whole identifier only
+                                            let after = src[at + len..].chars().next();
+                                            if !after.is_some_and(|c| c.is_ascii_alphanumeric()) {
+                                                marker_line = 1 + src[..at].matches('\n').count();
+                                                break;
+                                            }
+                                        }
+                                        rest = &rest[p + len.max(2)..];
+                                    }
+                                }
+                                recs.push(marker_line.to_string());
                                 match ins.get_line(i) {
                                     None => recs.extend(["0".to_string(), "0".into()]),
                                     Some(l) => recs.extend(["1".to_string(), l.to_string()]),
